@@ -1,3 +1,101 @@
-(* Model/Iterators.v — the library's iterators as compositions of the adapters of Model/Iter.v; no proofs. *)
+(* Model/Iterators.v — the library's iterators as compositions of the adapters of Model/Iter.v; no proofs.
+
+   Every definition follows the shape of the Go source (formats/*/iter.go,
+   newick.go Reader/File, traverse.go, trie.go ForEach, sequtil.go
+   CanonicalSubsequences): which loop it is, which `range` wrapper sits around
+   which inner iterator, and where a yield is guarded.  The *contents* of the
+   loops (what read() returns, call after call) come from the format models.
+
+   An input of a Reader is the delivered bytes [w] and the terminal condition
+   [t] of the stream; of a File additionally [opened] (false: aio.Open failed,
+   e.g. a missing path; a file that opened ends with a clean EOF or an I/O
+   error like any stream). *)
 From Bio Require Import Base.
 From Bio.Model Require Import Iter.
+From Bio.Model Require Fasta Fastq Sam Bed Newick Trie Seq.
+
+(* the items of a computation that cannot panic (proved per family: C19, C15,
+   C05; for CanonicalSubsequences on valid DNA and k >= 0, C12) *)
+Definition ok_items {A} (o : outcome (list A)) : list A :=
+  match o with Ok l => l | _ => [] end.
+
+(* ---- fasta (formats/fasta/iter.go) ---------------------------------------------- *)
+(* reader.iter(): for { fa, err := r.read(); if err != nil { if err != io.EOF { yield(nil, err) }; break }
+                        if !yield(fa, nil) { return } }
+   the successive results of read() are [Fasta.decode w t]. *)
+Definition fasta_iter (w : bytes) (t : term) : seqT (item Fasta.fasta) :=
+  iter_loop (Fasta.decode w t).
+(* Reader: for fa, err := range newReader(r).iter() { if !yield(fa, err) { break } } *)
+Definition fasta_reader (w : bytes) (t : term) : seqT (item Fasta.fasta) :=
+  wrap_guarded (fasta_iter w t).
+(* File: Open; on error yield(nil, err); return; else for .. range Reader(f) { if !yield { break } } *)
+Definition fasta_file (opened : bool) (w : bytes) (t : term) : seqT (item Fasta.fasta) :=
+  file_wrap opened (fasta_reader w t).
+
+(* ---- fastq (formats/fastq/iter.go: the same three functions) ---------------------- *)
+Definition fastq_iter (w : bytes) (t : term) : seqT (item Fastq.fastq) :=
+  iter_loop (Fastq.decode w t).
+Definition fastq_reader (w : bytes) (t : term) : seqT (item Fastq.fastq) :=
+  wrap_guarded (fastq_iter w t).
+Definition fastq_file (opened : bool) (w : bytes) (t : term) : seqT (item Fastq.fastq) :=
+  file_wrap opened (fastq_reader w t).
+
+(* ---- bed (formats/bed/iter.go) ----------------------------------------------------- *)
+(* Reader: for { bed, err := rd.read(); if err == io.EOF { return }
+                 if err != nil { yield(nil, err); return }; if !yield(bed, nil) { return } } *)
+Definition bed_reader (w : bytes) (t : term) : seqT (item Bed.bed) :=
+  reader_loop (Bed.decode w t).
+Definition bed_file (opened : bool) (w : bytes) (t : term) : seqT (item Bed.bed) :=
+  file_wrap opened (bed_reader w t).
+
+(* ---- newick (formats/newick/newick.go Reader, File) -------------------------------- *)
+Definition newick_reader (o : foracle) (w : bytes) (t : term) : seqT (item Newick.tree) :=
+  reader_loop (ok_items (Newick.decode o w t)).
+(* File: for n, err := range Reader(f) { if !yield(n, err) { return } } *)
+Definition newick_file (opened : bool) (o : foracle) (w : bytes) (t : term) : seqT (item Newick.tree) :=
+  file_wrap opened (newick_reader o w t).
+
+(* ---- sam (formats/sam/iter.go) ------------------------------------------------------ *)
+(* ReaderHeader: one loop over the lines; every yield is `if !yield(..) { return }`
+   except the one for a read error, which is followed by `return`.  It goes on
+   after a line that does not parse. *)
+Definition sam_reader_header (o : foracle) (w : bytes) (t : term) : seqT (item Sam.entry) :=
+  guarded_loop (Sam.reader_header o w t).
+
+(* the body of Reader's range loop: errors are passed on, headers dropped *)
+Definition sam_keep (it : item Sam.entry) : option (item Sam.sam) :=
+  match it with
+  | ErrItem => Some ErrItem                 (* if err != nil { if !yield(nil, err) { break }; continue } *)
+  | Rec (Sam.Hdr _) => None                 (* if sh.S == nil { continue } *)
+  | Rec (Sam.Aln r) => Some (Rec r)         (* if !yield(sh.S, nil) { break } *)
+  end.
+
+Definition sam_reader (o : foracle) (w : bytes) (t : term) : seqT (item Sam.sam) :=
+  filter_wrap sam_keep (sam_reader_header o w t).
+Definition sam_file (opened : bool) (o : foracle) (w : bytes) (t : term) : seqT (item Sam.sam) :=
+  file_wrap opened (sam_reader o w t).
+Definition sam_file_header (opened : bool) (o : foracle) (w : bytes) (t : term) : seqT (item Sam.entry) :=
+  file_wrap opened (sam_reader_header o w t).
+
+(* ---- newick traversals (formats/newick/traverse.go) --------------------------------- *)
+(* the explicit stack loop; both yields are `if !yield(step.n) { return }` *)
+Definition pre_order (tr : Newick.tree) : seqT Newick.occ :=
+  guarded_loop (ok_items (Newick.traverse true tr)).
+Definition post_order (tr : Newick.tree) : seqT Newick.occ :=
+  guarded_loop (ok_items (Newick.traverse false tr)).
+
+(* ---- trie.ForEach (trie/trie.go) ----------------------------------------------------- *)
+(* `if len(cur) > 0 && !f(cur) { break }`: the callback is the yield.  The order
+   is the model's (ascending keys); Go's is its map order (see Model/Trie.v). *)
+Definition for_each (tr : Trie.trie) : seqT bytes :=
+  guarded_loop (ok_items (Trie.for_each tr)).
+
+(* ---- sequtil.CanonicalSubsequences ---------------------------------------------------- *)
+(* for i := range nk { ...; if !yield(kmer) { return } } *)
+Definition canonical_subsequences (s : bytes) (k : Z) : seqT bytes :=
+  guarded_loop (ok_items (Seq.canon s k)).
+
+(* ---- a broken adapter, for the non-vacuity examples only ------------------------------- *)
+(* Reader written `for fa, err := range r.iter() { yield(fa, err) }` *)
+Definition fasta_reader_broken (w : bytes) (t : term) : seqT (item Fasta.fasta) :=
+  wrap_unguarded (fasta_iter w t).
